@@ -1119,7 +1119,7 @@ def population_program(rng):
         i = sels[rng.randrange(len(sels))]
         S = {"t": "var", "i": i}
         C = {"t": "cls", "name": type(env.heap[i]).QUERY_CLS.__name__}
-        how = rng.choice(["select", "from", "join", "in"])
+        how = rng.choice(["select", "from", "join", "in", "values"])
         if how == "select":
             x = {"t": "meth", "x": {"t": "meth", "x": C, "m": "from_", "a": [TB]}, "m": "select", "a": [F(TB, "x"), S]}
         elif how == "from":
@@ -1129,6 +1129,11 @@ def population_program(rng):
             sub = {"t": "meth", "x": S, "m": "as_", "a": ["sj"]}
             x = {"t": "meth", "x": {"t": "join", "x": {"t": "meth", "x": C, "m": "from_", "a": [TB]}, "item": sub, "how": None,
                                     "fin": "cross", "a": []}, "m": "select", "a": [F(TB, "x")]}
+        elif how == "values":
+            # a scalar sub-query as a VALUES item; it may carry an alias (its own, or the automatic one it got as
+            # somebody's FROM source)
+            x = {"t": "meth", "x": {"t": "meth", "x": C, "m": "into", "a": [TB]}, "m": "insert",
+                 "a": [1, {"t": "meth", "x": S, "m": "as_", "a": ["sj"]} if rng.random() < 0.5 else S]}
         else:
             x = {"t": "meth", "x": {"t": "meth", "x": {"t": "meth", "x": C, "m": "from_", "a": [TB]}, "m": "select", "a": [F(TB, "x")]},
                  "m": "where", "a": [{"t": "meth", "x": F(TB, "y"), "m": "isin", "a": [S]}]}
